@@ -1,0 +1,55 @@
+//go:build verif
+
+package goat
+
+import (
+	"context"
+	"time"
+
+	"github.com/avos-io/goat/gen/goatorepo"
+)
+
+// Accessors for the external verification harness. Compiled only with the
+// "verif" build tag.
+
+func VerifParseGrpcTimeout(s string) (time.Duration, bool) { return parseGrpcTimeout(s) }
+
+func VerifParseRawMethod(s string) (string, string, error) { return parseRawMethod(s) }
+
+func VerifHeadersFromContext(ctx context.Context) []*goatorepo.KeyValue {
+	return headersFromContext(ctx)
+}
+
+func VerifContextFromHeaders(
+	parent context.Context,
+	h *goatorepo.RequestHeader,
+) (context.Context, context.CancelFunc, error) {
+	return contextFromHeaders(parent, h)
+}
+
+// VerifHandlerCount is the number of calls registered with the connection's
+// multiplexer.
+func (cc *ClientConn) VerifHandlerCount() int { return cc.mp.VerifHandlerCount() }
+
+// VerifClientCount is the number of connections in the proxy's routing table.
+func (p *Proxy) VerifClientCount() int {
+	p.mutex.Lock()
+	defer p.mutex.Unlock()
+	return len(p.clients)
+}
+
+// VerifConnCount is the number of logical connections of the demultiplexer.
+func (gsd *Demux) VerifConnCount() int {
+	gsd.conns.Lock()
+	defer gsd.conns.Unlock()
+	return len(gsd.conns.value)
+}
+
+// VerifConnCount is the number of live connections of the HTTP transport.
+func (goh *GoatOverHttp) VerifConnCount() int {
+	goh.conns.Lock()
+	defer goh.conns.Unlock()
+	return len(goh.conns.value)
+}
+
+const VerifClientBufferSize = clientBufferSize
